@@ -140,7 +140,8 @@ struct Gen {
             break;
         }
         case BURST:
-            p.add(where, "burst", {rmod(), rmod(), thorough ? (long)r.range(8100, 8300) : (long)r.range(100, 400), r.chance(0.3) ? 1 : 0});
+            // crossing the mailbox capacity (8192 messages) is the point of a burst; small ones only add volume
+            p.add(where, "burst", {rmod(), rmod(), (thorough || r.chance(0.4)) ? (long)r.range(8150, 8300) : (long)r.range(100, 400), r.chance(0.3) ? 1 : 0});
             break;
         case SUBS:
             if (r.chance(0.75)) p.add(where, "sub", {rmod(), rtopic(true), rbits(pf.sub_flag_bits, 0.25)});
@@ -173,6 +174,7 @@ struct Gen {
             int k = (int)r.below(10);
             long dt = r.chance(0.5) ? 0 : (long)r.below(3) * 5000 + (long)r.below(3);
             long kind = k < 5 ? 0 : k < 7 ? 1 : k < 8 ? 2 : k < 9 ? 3 : 4;
+            if (kind == 0 && r.chance(0.12)) kind = 5;   // peer hang-up
             long x = kind == 0 ? (long)r.below(3) : kind == 1 ? (long)r.below(4) : kind == 2 ? (long)r.below(4) : kind == 3 ? (long)r.below(PATH_POOL_N) : (long)r.range(-50, 50);
             p.add(where, "env_at", {dt, kind, x, (long)r.range(1, 8)});
             break;
